@@ -8,6 +8,7 @@ ENGINES = {
 	'C05': ('tranpsim.c05', 'C05'),
 	'C06': ('tranpsim.c06', 'C06'),
 	'C07': ('tranpsim.c07', 'C07'),
+	'C09': ('tranpsim.c09', 'C09'),
 	'C10': ('tranpsim.c10', 'C10'),
 	'C14': ('tranpsim.c14', 'C14'),
 	'C15': ('tranpsim.c15', 'C15'),
